@@ -209,6 +209,9 @@ func ematchInstances(lines []string, hyps []*quantHyp, goalText string) []string
 			}
 			out = b.String()
 		}
+		if depth == 0 {
+			out = simplifyMkslice(out)
+		}
 		if depth == 0 && len(out) < 20000 {
 			canonMemo[t] = out
 		}
@@ -394,4 +397,53 @@ func ematchInstances(lines []string, hyps []*quantHyp, goalText string) []string
 		fmt.Fprintf(os.Stderr, "ematch total %d reads %d\n", total, len(seenRead))
 	}
 	return out
+}
+
+// simplifyMkslice rewrites (sbase (mkslice a b c d)) to a (and soff/slen/scap to b/c/d): a
+// sub-slice s[1:] denotes the same backing array as s.
+func simplifyMkslice(t string) string {
+	for iter := 0; iter < 20; iter++ {
+		changed := false
+		for fi, fn := range []string{"(sbase (mkslice ", "(soff (mkslice ", "(slen (mkslice ", "(scap (mkslice "} {
+			k := strings.Index(t, fn)
+			if k < 0 {
+				continue
+			}
+			// the inner (mkslice ...) term starts at k+len("(sbase ")
+			start := k + len("(sbase ")
+			depth, end := 0, -1
+			for i := start; i < len(t); i++ {
+				if t[i] == '|' {
+					j := strings.IndexByte(t[i+1:], '|')
+					if j < 0 {
+						break
+					}
+					i += j + 1
+					continue
+				}
+				if t[i] == '(' {
+					depth++
+				} else if t[i] == ')' {
+					depth--
+					if depth == 0 {
+						end = i
+						break
+					}
+				}
+			}
+			if end < 0 || end+1 >= len(t) || t[end+1] != ')' {
+				continue
+			}
+			_, as := splitTop(t[start : end+1])
+			if len(as) != 4 {
+				continue
+			}
+			t = t[:k] + strings.TrimSpace(as[fi]) + t[end+2:]
+			changed = true
+		}
+		if !changed {
+			break
+		}
+	}
+	return t
 }
